@@ -56,8 +56,8 @@ class AvroJSONDecoder:
     def read_value(self, symbol):
         if isinstance(self._current, dict):
             if self._key not in self._current:
-                # Use the default value
-                return symbol.get_default()
+                # Use the default value (a copy: it belongs to the schema)
+                return deepcopy(symbol.get_default())
             else:
                 return self._current[self._key]
         else:
@@ -215,7 +215,9 @@ class AvroJSONDecoder:
             # of the union field
             if self._key not in self._current:
                 self._current[self._key] = {
-                    alternative_symbol.labels[0]: alternative_symbol.get_default()
+                    alternative_symbol.labels[0]: deepcopy(
+                        alternative_symbol.get_default()
+                    )
                 }
 
             if self._current[self._key] is None:
